@@ -48,6 +48,12 @@ def fmt_rules(P, R):
     return V, softfns
 
 
+# client -> iauth messages of the protocol (ircu doc/readme.iauth), frozen: letter -> meaning
+PROTOCOL = {'C': 'client introduction', 'D': 'client disconnect', 'N': 'hostname received', 'd': 'hostname timeout', 'P': 'client password',
+            'U': 'client username', 'u': 'client username (ident)', 'n': 'client nickname', 'H': 'hurry up', 'T': 'client registered',
+            'E': 'error', 'M': 'server name and capacity', 'X': 'extension query reply', 'x': 'extension server not linked'}
+
+
 def verdict_discipline(P, R, V):
     ret = uar.Ret(P, [('iauth_class_rule_check', 'iauth_trust_username')] if uar.exception_premises(P)[0] else [])
     for f in V.values():
@@ -248,6 +254,17 @@ def run(P, R, tier):
     validated_verdicts(P, R, V)
     junk_inert(P, R, 'C01.GRD.3')
     null_tolerant_handlers(P, R)
+    # exhaustiveness: every message of the IAuth protocol that concerns a client's life has a case in the dispatch
+    # switch, each with a handler call (a dropped `T` leaves a registered client's request live: a late reply then
+    # writes a verdict for a client the server has already registered)
+    rd, disp = core.reader_dispatch(P)
+    have = {}
+    for s, h, vs in disp:
+        for v in (vs or []):
+            have.setdefault(chr(v), []).append(h.name)
+    for letter, what in sorted(PROTOCOL.items()):
+        R.ob('C01.TAB.3', letter in have, rd, 'the dispatch switch handles %r (%s)%s' % (letter, what, (' with ' + ', '.join(sorted(set(have.get(letter, []))))) if letter in have else ''), key='letter:%s' % letter)
+    R.floor('C01.TAB.3', 10)
     uar.check(P, R, 'C01.UAR.1')
     from ..report import Remap
     from . import c19, c09
